@@ -83,6 +83,60 @@ theorem c09_published (cfg : Cfg) (ops : List Op) (k : Nat)
   · rw [hr.1] at h; injection h with h; subst h
     exact ⟨hr.2.1, hr.2.2.1, fun e _ hc => (hr.2.2.2 e hc).2⟩
 
+/-- keys once published stay published -/
+theorem step_published_mono (cfg : Cfg) (s : State) (op : Op) (x : Nat) (h : x ∈ s.published) :
+    x ∈ (step cfg s op).published := by
+  cases op with
+  | request => exact h
+  | inj i =>
+    cases i with
+    | noTLS => exact h
+    | noVerifiedChain => exact h
+    | noPassphraseField => exact h
+    | pass p =>
+      simp only [step, inject]
+      split
+      · exact h
+      · split
+        · exact h
+        · unfold unsealed; split
+          · exact mem_addKey_of_mem (mem_addKey_of_mem h)
+          · exact mem_addKey_of_mem h
+
+theorem published_mono (cfg : Cfg) (ops : List Op) : ∀ (s : State) (x : Nat), x ∈ s.published →
+    x ∈ (run cfg s ops).published := by
+  induction ops with
+  | nil => intro s x h; exact h
+  | cons op rest ih => intro s x h; exact ih _ x (step_published_mono cfg s op x h)
+
+/-- **The same from any pre-loaded key list** (`keymaster_public_keys_filename` may already list the
+keys of cluster members, this server's own RSA key among them, before the server is unsealed): the
+invariant holds in every reachable state, so once unsealed *every* key that signs — the Ed25519 one
+too — is in the published list, whatever was listed before. -/
+theorem c09_unseal_once_preloaded (cfg : Cfg) (pre : List Nat) (ops : List Op) :
+    Inv cfg (run cfg (initWith pre) ops) := by
+  have : ∀ s, Inv cfg s → Inv cfg (run cfg s ops) := by
+    induction ops with
+    | nil => intro s h; exact h
+    | cons op rest ih => intro s h; exact ih _ (step_inv cfg s op h)
+  exact this (initWith pre) (Or.inl ⟨rfl, rfl⟩)
+
+theorem c09_published_preloaded (cfg : Cfg) (pre : List Nat) (ops : List Op) (k : Nat)
+    (h : (run cfg (initWith pre) ops).signer = some k) :
+    k ∈ (run cfg (initWith pre) ops).published ∧
+    (∀ e, cfg.edKey = some e → (run cfg (initWith pre) ops).edSigner = some e ∧
+      e ∈ (run cfg (initWith pre) ops).published) ∧
+    ∀ x ∈ pre, x ∈ (run cfg (initWith pre) ops).published := by
+  rcases c09_unseal_once_preloaded cfg pre ops with ⟨hn, _⟩ | ⟨hr, _⟩
+  · rw [hn] at h; cases h
+  · rw [hr.1] at h; injection h with h; subst h
+    refine ⟨hr.2.1, fun e hc => ⟨(hr.2.2.2 e hc).1, (hr.2.2.2 e hc).2.1⟩, ?_⟩
+    exact fun x hx => published_mono cfg ops (initWith pre) x hx
+
+/-- non-vacuity, the cluster case: the RSA key is already listed, the Ed25519 key is not -/
+example : (run { correct := 7, signerKey := 10, edKey := some 11 } (initWith [99, 10])
+    [.inj (.pass 3), .inj (.pass 7)]).published = [99, 10, 11] := by decide
+
 theorem only_correct_aux (cfg : Cfg) (ops : List Op) :
     ∀ s, s.signer = none → (run cfg s ops).signer ≠ none → Op.inj (.pass cfg.correct) ∈ ops := by
   induction ops with
